@@ -126,6 +126,16 @@ func (t *Term) print(sb *strings.Builder, ren *renamer) {
 		sb.WriteString("(")
 		args(", ")
 		sb.WriteString(")")
+	case "Phi":
+		// the variable's name is not part of the value; in Key mode two merges are never
+		// confused, even when they merge the same operands
+		sb.WriteString("Phi")
+		if ren.key && t.V != nil {
+			fmt.Fprintf(sb, "#%d", ren.id("phi", t.V, t.Ctx))
+		}
+		sb.WriteString("(")
+		args(", ")
+		sb.WriteString(")")
 	case "Struct":
 		sb.WriteString(t.S + "{")
 		args(", ")
@@ -191,16 +201,20 @@ func mk(op, s string, v ssa.Value, args ...*Term) *Term {
 
 // TB builds terms for the values of one function.
 type TB struct {
-	p         *Program
-	fn        *ssa.Function
-	parent    *TB                        // builder of the enclosing function (for closures)
-	bind      map[*ssa.FreeVar]ssa.Value // free variable -> value in parent
-	memo      map[ssa.Value]*Term
-	active    map[ssa.Value]bool
-	loadID    map[ssa.Value]int
-	nextEpoch int
-	depth     int
-	stack     []*ssa.Function
+	p      *Program
+	fn     *ssa.Function
+	parent *TB                        // builder of the enclosing function (for closures)
+	bind   map[*ssa.FreeVar]ssa.Value // free variable -> value in parent
+	memo   map[ssa.Value]*Term
+	active map[ssa.Value]bool
+	// activeDepth and cycleTo implement context-free memoisation: a term built while it
+	// refers to a value still being described further up is not remembered
+	activeDepth map[ssa.Value]int
+	cycleTo     int
+	loadID      map[ssa.Value]int
+	nextEpoch   int
+	depth       int
+	stack       []*ssa.Function
 	// NoGlobalInit disables the resolution of package variables to their
 	// initialiser.
 	NoGlobalInit bool
@@ -243,15 +257,37 @@ func (tb *TB) Term(v ssa.Value) *Term {
 		case *ssa.Alloc:
 			return &Term{Op: "Self", V: v}
 		}
+		// the value is being described further up: everything built between there and here
+		// depends on where the description started and is not remembered
+		if d := tb.activeDepth[v]; d < tb.cycleTo {
+			tb.cycleTo = d
+		}
 		return &Term{Op: "Loop", V: v}
 	}
+	if tb.activeDepth == nil {
+		tb.activeDepth = map[ssa.Value]int{}
+		tb.cycleTo = 1 << 30
+	}
+	depth := len(tb.active)
 	tb.active[v] = true
+	tb.activeDepth[v] = depth
+	saved := tb.cycleTo
+	tb.cycleTo = 1 << 30
 	t := tb.build(v)
 	delete(tb.active, v)
+	delete(tb.activeDepth, v)
 	if t.V == nil {
 		t.V = v
 	}
-	tb.memo[v] = t
+	// cycleTo < depth: the term refers (through a Loop marker) to a value that is still
+	// being described above v, so it is only valid inside that description
+	inner := tb.cycleTo
+	if inner >= depth {
+		tb.memo[v] = t
+	} else if inner < saved {
+		saved = inner
+	}
+	tb.cycleTo = saved
 	return t
 }
 
@@ -380,7 +416,7 @@ func (tb *TB) build(v ssa.Value) *Term {
 		}
 		return mk("Ext", strconv.Itoa(x.Index), v, tb.Term(x.Tuple))
 	case *ssa.BinOp:
-		return mk("Bin", x.Op.String(), v, tb.Term(x.X), tb.Term(x.Y))
+		return normBin(x.Op.String(), v, tb.Term(x.X), tb.Term(x.Y))
 	case *ssa.UnOp:
 		if x.Op == token.MUL {
 			return tb.load(x)
@@ -435,6 +471,11 @@ func (tb *TB) build(v ssa.Value) *Term {
 					continue
 				}
 				a := tb.Term(e)
+				if a.Op == "Make0" && len(a.Args) == 0 && ph.Comment != "" {
+					// the start value of an append chain: an empty slice with a capacity hint
+					// holds the same elements as the nil slice
+					a = mk("Nil", "nil", a.V)
+				}
 				k := fmt.Sprintf("%p", e)
 				if _, isConst := e.(*ssa.Const); isConst {
 					k = a.String()
@@ -845,6 +886,20 @@ func (tb *TB) sliceLit(al *ssa.Alloc, n int) *Term {
 		case *ssa.DebugRef:
 		default:
 			return nil
+		}
+	}
+	// a literal of zeros is the same buffer as make([]T, n)
+	allZero := n > 1
+	for _, e := range elems {
+		if e != nil && !(e.Op == "Const" && e.S == "0") {
+			allZero = false
+		}
+	}
+	if allZero {
+		if arr, ok := al.Type().(*types.Pointer).Elem().Underlying().(*types.Array); ok {
+			if bt, ok := arr.Elem().Underlying().(*types.Basic); ok && bt.Info()&types.IsInteger != 0 {
+				return mk("Zero", "", al, mk("Const", strconv.Itoa(n), nil))
+			}
 		}
 	}
 	t := mk("List", "", al)
@@ -1404,6 +1459,51 @@ func (tb *TB) call(c *ssa.Call) *Term {
 		return mk("Invoke", name, c, args...)
 	}
 	return mk("Call", name, c, args...)
+}
+
+// normBin builds a binary term, folding chains of additions and subtractions of
+// integer constants: (x + 1) + 6 and x + 7 are the same term.
+func normBin(op string, v ssa.Value, x, y *Term) *Term {
+	if op != "+" && op != "-" {
+		return mk("Bin", op, v, x, y)
+	}
+	ky, yConst := intConst(y)
+	kx, xConst := intConst(x)
+	if xConst && yConst {
+		return mk("Bin", op, v, x, y)
+	}
+	if op == "+" && xConst && !yConst {
+		x, y, kx, ky, xConst, yConst = y, x, ky, kx, yConst, xConst
+	}
+	if !yConst {
+		return mk("Bin", op, v, x, y)
+	}
+	k := ky
+	if op == "-" {
+		k = -ky
+	}
+	base := x
+	if x.Op == "Bin" && (x.S == "+" || x.S == "-") && len(x.Args) == 2 {
+		if k2, ok := intConst(x.Args[1]); ok {
+			if x.S == "-" {
+				k2 = -k2
+			}
+			base, k = x.Args[0], k+k2
+		} else if k2, ok := intConst(x.Args[0]); ok && x.S == "+" {
+			base, k = x.Args[1], k+k2
+		}
+	}
+	if base == x {
+		return mk("Bin", op, v, x, y) // nothing folded: keep the written form
+	}
+	switch {
+	case k == 0:
+		return base
+	case k > 0:
+		return mk("Bin", "+", v, base, mk("Const", strconv.FormatInt(k, 10), nil))
+	default:
+		return mk("Bin", "-", v, base, mk("Const", strconv.FormatInt(-k, 10), nil))
+	}
 }
 
 // oneShotHash maps the one-call digest functions to the constructor of the
